@@ -133,6 +133,17 @@ HARNESSES = [
          backends=["default", "kissat"],
          bound="1 group, 1 KiB blocks, plain features (sparse_super only), scaled cache geometry (4 entries), cache empty before close; "
                "fs->flags (minus RW, DIRTY forced on), close flags, s_state symbolic; no shadow superblock (fs->orig_super NULL: whole-superblock write)"),
+    dict(name="main_e2fsck", src="main_e2fsck.c",
+         cut_statics={"e2fsck/unix.c": ["PRS"]},
+         funcs=["vf_real_main", "try_open_fs", "check_mount"],
+         configs=[{"ERR": e} for e in ("EXT2_ET_BAD_MAGIC", "EXT2_ET_CORRUPT_SUPERBLOCK", "EXT2_ET_SB_CSUM_INVALID",
+                                        "EXT2_ET_BAD_DESC_SIZE", "EBUSY", "EROFS", "EXT2_ET_SHORT_READ")] +
+                 [{"ERR": "EXT2_ET_UNSUPP_FEATURE", "FEAT": 0}, {"ERR": "EXT2_ET_UNSUPP_FEATURE", "FEAT": "0x40000000"}],
+         unwind=4, unwindset=["try_open_fs.0:9", "reserve_stdio_fds.0:3"] + ["vf_real_main.%d:34" % i for i in range(4, 16)],
+         backends=["default", "kissat"],
+         bound="ctx->options: every word PRS() can produce; -b superblock, -B blocksize, interactive, -z undo file, mount flags, "
+               "profile old_bitmaps, fix_problem/ask_yn answers, backup-superblock search result: symbolic; every ext2fs_open2 "
+               "fails with the query's error code (8 codes)"),
 ]
 MANIFEST = {
     "text": "Library-level slice, bounded-exhaustive over the flag word: for every value of fs->flags without EXT2_FLAG_RW the "
